@@ -2364,3 +2364,69 @@ def chain_is_exhaustive(e):
 	"""True when no adaptor of the chain can stop before the end of the underlying collection"""
 	names, base = iterator_chain(e)
 	return not any(n in _SHORT_CIRCUIT for n in names), names
+
+
+def guards_of_lock(fu, field_suffix):
+	"""[(lock block, set of locals holding the guard)] for every `<field>.lock()` (Mutex / RwLock read / write) whose receiver is rooted in a
+	field ending with field_suffix; the guard is followed through unwrap / expect and moves into named locals"""
+	ex = Expr(fu)
+	out = []
+	for b, ci in fu.calls():
+		f = norm(ci.get('f') or ci.get('t') or '')
+		if not f.endswith(('::lock', '::write', '::read')) or not ci['args'] or fu.is_cleanup(b):
+			continue
+		k = leaf_key(ex.of_operand(ci['args'][0]))
+		if not k.endswith(field_suffix):
+			continue
+		d = ci.get('dest')
+		if not d:
+			continue
+		G = {d[0]}
+		for _ in range(6):
+			for b2, c2 in fu.calls():
+				f2 = norm(c2.get('f') or '')
+				if f2.endswith(('::unwrap', '::expect')) and c2['args'] and c2['args'][0][0] in ('c', 'm') and c2['args'][0][1] and c2['args'][0][1][0] in G and c2.get('dest'):
+					G.add(c2['dest'][0])
+			for bi, si, s in fu.stmts():
+				rv = s[2]
+				if len(s[1]) == 1 and rv[0] == 'use' and rv[1][0] == 'm' and len(rv[1][1]) == 1 and rv[1][1][0] in G:
+					G.add(s[1][0])
+		out.append((b, G))
+	return out
+
+def release_blocks(fu, G):
+	"""blocks that end the life of a guard held in one of the locals G: its scope-end drop, or a call that takes it by value (mem::drop)"""
+	out = set()
+	for bi, b in enumerate(fu.blocks):
+		t = b['t']
+		if fu.is_cleanup(bi):
+			continue
+		if t[1] == 'drop' and t[2] and t[2][0] in G and len(t[2]) == 1:
+			out.add(bi)
+		if t[1] == 'call' and not norm(t[2].get('f') or '').endswith(('::unwrap', '::expect')):
+			for a in t[2]['args']:
+				if a[0] == 'm' and len(a[1]) == 1 and a[1][0] in G:
+					out.add(bi)
+	return out
+
+def P_held_across(facts, rule, fu, field_suffix, act_blocks, what, key):
+	"""every act block is reached only with the lock on `field_suffix` held: some acquisition dominates it and no release of that guard lies
+	between the acquisition and the act"""
+	locks = guards_of_lock(fu, field_suffix)
+	if not locks or not act_blocks:
+		return [Result(rule, False, 'anchor:' + key, '%s: lock on %s (%d) / %s (%d) not found' % (fu.name.rsplit('::', 1)[-1], field_suffix, len(locks), what, len(act_blocks)), where=facts.where(fu.name))]
+	out = []
+	for i, P in enumerate(sorted(act_blocks)):
+		held = False
+		why = 'no acquisition of the lock dominates it'
+		for L, G in locks:
+			if not fu.dominates(L, P):
+				continue
+			rel = release_blocks(fu, G)
+			between = [R for R in rel if R in fu.reach([L]) and P in fu.reach([R], removed_blocks={L})]
+			if not between:
+				held = True
+				break
+			why = 'the guard taken at line %s is released at line %s before it' % (fu.line_of(L), fu.line_of(sorted(between)[0]))
+		out.append(Result(rule, held, ('ok:' if held else 'unlocked:') + key + '@%d' % i, '%s: %s runs with the %s lock held' % (fu.name.rsplit('::', 1)[-1], what, field_suffix) if held else '%s: %s (line %s) runs without the %s lock: %s' % (fu.name.rsplit('::', 1)[-1], what, fu.line_of(P), field_suffix, why), 2, where=facts.where(fu.name, fu.line_of(P))))
+	return out
